@@ -56,7 +56,7 @@ theorem dot_from_tail (i : Int) : ∀ (sd n : Nat) (o tail : Idx), sd < n →
   | 0, m + 1, [], tail, _ => by simp
   | 0, m + 1, x :: os, tail, _ => by
     rw [uniform_set_zero]
-    simp [uniform, dot_zeros]
+    simp [uniform]
     have := dot_zeros m os
     simp only [uniform] at this
     omega
@@ -127,9 +127,10 @@ theorem slice_iter {a : Arr} (r : Regular a.v) (fromI toI : Idx) (hf : fromI.len
     rw [multiply_ok _ _ (by rw [r.rank_step, r.rank_offset]), r.offStep_eq]
   simp only [slice, View.sliceInto, h1, h2, h3, bind, Except.bind, pure, Except.pure, subArr]
 
+omit [JNum α] in
 /-- reading through the sub-view = reading through the array at the shifted index -/
 theorem get_sub (h : Heap α) {a : Arr} (r : Regular a.v) (fromI toI idx : Idx)
-    (hf : fromI.length = a.v.dims.length) (hi : idx.length = a.v.dims.length) :
+    (_hf : fromI.length = a.v.dims.length) (hi : idx.length = a.v.dims.length) :
     Nd.get h (subArr a toI (a.v.start + dot fromI a.v.offStep)) idx =
       (readAt h a (a.v.start + (dot fromI a.v.offStep + dot idx a.v.offStep))) := by
   have h1 : View.indexAux idx a.v.offStep = .ok (dot idx a.v.offStep) :=
@@ -138,6 +139,7 @@ theorem get_sub (h : Heap α) {a : Arr} (r : Regular a.v) (fromI toI idx : Idx)
   rw [Int.add_assoc]
   rfl
 
+omit [JNum α] in
 theorem get_eq_readAt (h : Heap α) {a : Arr} (r : Regular a.v) (idx : Idx) (hi : idx.length = a.v.dims.length) :
     Nd.get h a idx = readAt h a (a.v.start + dot idx a.v.offStep) := by
   have h1 : View.indexAux idx a.v.offStep = .ok (dot idx a.v.offStep) :=
@@ -151,6 +153,7 @@ def iterSub (a : Arr) (sd : Nat) (i : Nat) : Arr :=
   subArr a ((fillTo a.v.dims sd).set sd (i : Int))
     (a.v.start + dot ((a.v.newIndex 0).set sd (i : Int)) a.v.offStep)
 
+omit [JNum α] in
 theorem iterSub_props (h : Heap α) {a : Arr} (r : Regular a.v) {sd : Nat} (hsd : sd < a.v.dims.length) (i : Nat) :
     Regular (iterSub a sd i).v ∧ (iterSub a sd i).v.dims.length = a.v.dims.length ∧
     (iterSub a sd i).v.dims.drop (sd + 1) = a.v.dims.drop (sd + 1) ∧
@@ -255,6 +258,18 @@ theorem jsonSafeArrayF_spec (h : Heap α) :
     have key' : jsonSafeArrayF h f (subArr a ((fillTo a.v.dims sd).set sd (i : Int))
         (a.v.start + dot ((a.v.newIndex 0).set sd (i : Int)) a.v.offStep)) ((sd + 1 : Nat) : Int) = _ := key
     simp only [key']
+
+omit [JNum α] in
+/-- in-bounds tail index, padded with zeros on the left, is an in-bounds index of the view -/
+theorem inBounds_pad : ∀ (sd : Nat) (dims tail : Idx), Pos dims → InBounds tail (dims.drop sd) →
+    sd ≤ dims.length → InBounds (uniform sd 0 ++ tail) dims
+  | 0, dims, tail, _, h, _ => by simpa [uniform] using h
+  | sd + 1, [], tail, _, _, hl => by simp at hl
+  | sd + 1, d :: ds, tail, hp, h, hl => by
+    have h1 : 1 ≤ d := hp d (by simp)
+    have ih := inBounds_pad sd ds tail (fun x hx => hp x (by simp [hx])) (by simpa using h) (by simpa using hl)
+    simp only [uniform_succ, List.cons_append, InBounds_cons]
+    exact ⟨by omega, by omega, ih⟩
 
 end
 end OW.Sim.Json
